@@ -416,9 +416,9 @@ func (h *SolverHub) solve(ss *solverSet, query string, vals []string, hasStr boo
 	if hasStr {
 		order = h.Order.Str
 		if strings.Contains(query, "(mod ") || strings.Contains(query, "str.to_int") {
-			order = []string{"cvc5", "z3"}
+			order = []string{"cvc5"}
 			if strings.Contains(query, "(mod ") {
-				order = []string{"z3", "cvc5"}
+				order = []string{"cvc5", "z3"}
 			}
 		}
 	}
